@@ -52,13 +52,15 @@ func (tmgc *TCPMuxGroupCtl) Listen(
 	multiplexer, group, groupKey string,
 	routeConfig vhost.RouteConfig,
 ) (l net.Listener, err error) {
+	// The controller lock is held until the proxy has joined, so that the group found here cannot be
+	// emptied and removed by the last leave in between (see CloseListener).
 	tmgc.mu.Lock()
+	defer tmgc.mu.Unlock()
 	tcpMuxGroup, ok := tmgc.groups[group]
 	if !ok {
 		tcpMuxGroup = NewTCPMuxGroup(tmgc)
 		tmgc.groups[group] = tcpMuxGroup
 	}
-	tmgc.mu.Unlock()
 	verifhook.At("group.tcpmux.after_lookup", group)
 
 	switch v1.TCPMultiplexerType(multiplexer) {
@@ -172,6 +174,9 @@ func (tmg *TCPMuxGroup) Accept() <-chan net.Conn {
 
 // CloseListener remove the TCPMuxGroupListener from the TCPMuxGroup
 func (tmg *TCPMuxGroup) CloseListener(ln *TCPMuxGroupListener) {
+	// lock order: controller, then group (as in TCPMuxGroupCtl.Listen)
+	tmg.ctl.mu.Lock()
+	defer tmg.ctl.mu.Unlock()
 	tmg.mu.Lock()
 	defer tmg.mu.Unlock()
 	for i, tmpLn := range tmg.lns {
@@ -183,7 +188,7 @@ func (tmg *TCPMuxGroup) CloseListener(ln *TCPMuxGroupListener) {
 	if len(tmg.lns) == 0 {
 		close(tmg.acceptCh)
 		tmg.tcpMuxLn.Close()
-		tmg.ctl.RemoveGroup(tmg.group)
+		delete(tmg.ctl.groups, tmg.group)
 	}
 }
 
